@@ -504,6 +504,7 @@ class SFile:
         if p != 0:
             raise core.Unsupported("seek to non-zero")
         self._pos = 0
+        self._cpos = 0
 
     def tell(self):
         if self._pos != 0:
@@ -527,7 +528,16 @@ class SFile:
             yield self._lines[self._pos - 1]
 
     def read(self, n=-1):
-        raise core.Unsupported("read() on symbolic stream")
+        # only the format sniffing idiom is supported: read(1) from the start, over literal text
+        if n != 1 or self._pos != 0:
+            raise core.Unsupported("read() on symbolic stream")
+        k = getattr(self, '_cpos', 0)
+        first = self._lines[0] if self._lines else ''
+        lit = first if isinstance(first, str) else (first.parts[0] if isinstance(first.parts[0], str) else None)
+        if lit is None or k >= len(lit):
+            raise core.Unsupported("read(1) reached symbolic text")
+        self._cpos = k + 1
+        return lit[k]
 
 
 def raw(name, domain=None, maxlen=6):
